@@ -3,6 +3,7 @@
 #define VERIF_SHIM_STR_H
 #include "base.h"
 #include <stdlib.h>
+#include <string.h>
 
 static inline const char *sv_at(const sv *s, unsigned long i) { SHIM_ASSERT(i < s->len, "shim.string_view.index.in_range"); return &s->data[i]; }
 static inline const char *sv_back(const sv *s) { SHIM_ASSERT(s->len > 0, "shim.string_view.back.nonempty"); return &s->data[s->len - 1]; }
@@ -19,13 +20,18 @@ static inline sv sv_substr(sv s, unsigned long pos, unsigned long n) {
 static inline _Bool sv_eq(sv a, sv b) {
   if (a.len != b.len) return 0;
   /* byte-wise comparison through CBMC's memcmp model */
-  return a.len == 0 || __builtin_memcmp(a.data, b.data, a.len) == 0; }
+  return a.len == 0 || memcmp(a.data, b.data, a.len) == 0; }
 static inline str str_empty(void) { str r; r.data = (char *)malloc(1); __CPROVER_assume(r.data != 0); r.data[0] = 0; r.len = 0; return r; }
 static inline str str_from_range(const char *a, const char *b) {
   SHIM_ASSERT(__CPROVER_same_object(a, b) && a <= b, "shim.string.range_valid");
   unsigned long n = (unsigned long)(b - a);
   str r; r.data = (char *)malloc(n + 1); __CPROVER_assume(r.data != 0);
-  if (n > 0) __builtin_memcpy(r.data, a, n);
+#ifdef SHIM_STR_PRECISE
+  if (n > 0) memcpy(r.data, a, n);
+#else
+  /* bytes of the copy are left unconstrained (fresh malloc'd memory is nondeterministic in CBMC): an
+     over-approximation that is sound for safety obligations; units that need the bytes define SHIM_STR_PRECISE */
+#endif
   r.data[n] = 0; r.len = n; return r; }
 static inline str str_from_sv(sv s) { return str_from_range(s.data, s.data + s.len); }
 static inline str str_substr(const str *s, unsigned long pos, unsigned long n) {
